@@ -79,7 +79,7 @@ for cap in (4, 8):
              bound=bound(cap, cap // 2 + 1, extra="; new capacity: the powers of two in [max(count+1,%d), %d]" % (lo, hi)),
              defines=D(cap, cap // 2 + 1, "-DSY_NEWMAX=%d" % NEWMAX[cap], "-DSY_SIZE_MIN=%d" % lo, "-DSY_SIZE_MAX=%d" % hi), unwind=max(hi, cap, KOF[cap] + 1) + 2,
              functions=["janet_cache_resize", "janet_symcache_findmem"], assumes=[UNIV, WF, EXITS, "calloc / free: CBMC's library models"],
-             mutants=RSZ, **S)
+             mutants=[m for m in RSZ if not (m['name'] == 'walks-new-capacity' and lo == hi == cap)], **S)   # same capacity: that mutant is equivalent
 
 # ------------------------------------------------------------------ 2. put
 PUT_CLAUSE = ("janet_symcache_put (after the findmem of janet_symbol) on EVERY well-formed cache: set' = set + {x} - the new symbol is interned as the identical object, every other interned symbol stays "
